@@ -20,6 +20,7 @@ EXTENDS Naturals, TLC
 NameClass == {"local", "hostglobal", "builtin", "shadow_lg", "shadow_gb", "agentonly", "undefined"}
 Site      == {"condition", "watch", "logfield", "metric", "label"}
 Wrap      == {"plain", "raises_exception", "raises_baseexception",
+              "syntax_error",                        \* text that is not an expression at all (`x =` for `x ==`)
               "raises_true_text", "raises_t_text"}   \* failures whose message reads like a truth value ("true") or merely
                                                      \* begins like one ("tuple index out of range"): still failures
 Neighbour == {"none", "ok_before", "ok_after"}   \* another expression of the same kind on the same tracepoint
